@@ -160,21 +160,24 @@ def midrun(run, n):
     out = engine.run_all(run, 'mid-run', scns)
     by_id = {id(s): m for s, m in zip(scns, ms)}
     for scn, res in out:
-        meta = by_id[id(scn)]
-        run.count('mid-run-state')
-        before, o = res['before'], res['steps'][0]
-        after = o['after']
-        case = {'scenario': scn, 'meta': meta, 'exit': o['exit'], 'stderr': esc(o['stderr'][-500:])}
-        top1 = '%s/.Trash/%d' % (meta['vol'], meta['uid'])
-        moved = '%s/moved-trash/%d' % (meta['vol'], meta['uid'])
-        pairs, strays, orphans = putlib.new_trash_items(before, after)
-        later = tuple(os.path.basename(a) for a in meta['args'][1:])
-        inside = [(td, n) for td, n in pairs if td in (top1, moved) and n.startswith(later)]
-        # only the first argument (and what was there before) may be there
-        if inside:
-            run.fail('oracle', 'trash-put kept writing into $topdir/.Trash/$uid after $topdir/.Trash had stopped being a sticky real directory '
-                     '(%s in the middle of the run)' % meta['change'], dict(case, entries_inside=inside), key='insecure-written-midrun', section='mid-run-state')
-        run.nontriv(('midrun', meta['change'], len(meta['args']), len(inside), o['exit']))
+        judge_midrun(run, scn, by_id[id(scn)], res)
+
+
+def judge_midrun(run, scn, meta, res, section='mid-run-state'):
+    run.count(section)
+    before, o = res['before'], res['steps'][0]
+    after = o['after']
+    case = {'scenario': scn, 'meta': meta, 'exit': o['exit'], 'stderr': esc(o['stderr'][-500:])}
+    top1 = '%s/.Trash/%d' % (meta['vol'], meta['uid'])
+    moved = '%s/moved-trash/%d' % (meta['vol'], meta['uid'])
+    pairs, strays, orphans = putlib.new_trash_items(before, after)
+    later = tuple(os.path.basename(a) for a in meta['args'][1:])
+    inside = [(td, n) for td, n in pairs if td in (top1, moved) and n.startswith(later)]
+    # only the first argument (and what was there before) may be there
+    if inside:
+        run.fail('oracle', 'trash-put kept writing into $topdir/.Trash/$uid after $topdir/.Trash had stopped being a sticky real directory '
+                 '(%s in the middle of the run)' % meta['change'], dict(case, entries_inside=inside), key='insecure-written-midrun', section=section)
+    run.nontriv(('midrun', meta['change'], len(meta['args']), len(inside), o['exit']))
 
 
 def run(run, thorough):
@@ -198,5 +201,7 @@ def replay(run, payload):
     print(scn['steps'][0]['cmd'], scn['steps'][0]['argv'], 'exit', o['exit'])
     print(' stdout:', esc(o['stdout'][:500]))
     print(' stderr:', esc(o['stderr'][:500]))
-    if meta:
+    if meta and 'change' in meta:
+        judge_midrun(run, scn, meta, res, 'replay')
+    elif meta:
         judge(run, scn, meta, res)
